@@ -1,8 +1,9 @@
 (* Model of the thread-pool forms of apply and of the multithreaded writers:
      base.py::_multithread_apply_nest    (flat phase, then rebuild; tasks complete in any order)
      _td.py::_multithread_apply_flat     (futures appended to the flat list `futures` and to the nested `local_futures`;
-                                          nested call does NOT forward default= / call_on_nested=)
-     _td.py::_multithread_rebuild        (zip(self.keys(), local_futures); nested rebuild gets the ROOT `out`)
+                                          nested call forwards default= (fix S15) but, like _apply_nest, not call_on_nested=)
+     _td.py::_multithread_rebuild        (zip(self.keys(), local_futures); nested rebuild gets out[key] (fix S16);
+                                          filter_empty=None rule of _apply_nest (fix C12-b))
      _td.py::_apply_nest                 (the single-threaded form)
      _td.py::_memmap_ / _populate_memmap (writer tasks: dest._tensordict[key] = memmap_tensor)
      base.py::consolidate (assign tasks: storage[start:stop].copy_(v), offsets = cumsum of the padded sizes)
@@ -164,8 +165,8 @@ Fixpoint flat_items (d : dflt) (con : bool) (prefix : list string) (self : fores
             if con then abind (others_leaf d others k) (fun ov =>
                         AOk ([{| tk_key := keyarg o prefix k; tk_item := item; tk_others := ov |}], LFut base))
             else abind (others_node d self others k) (fun others' =>
-                 (* S15: default= and call_on_nested= are NOT forwarded *)
-                 abind (flat_items NoDefault false (prefix ++ [k])%list g others' g base)
+                 (* default= is forwarded (fix S15); call_on_nested= is not (neither does _apply_nest) *)
+                 abind (flat_items d false (prefix ++ [k])%list g others' g base)
                        (fun tl => AOk (fst tl, LList (snd tl))))
         | Leaf _ => abind (others_leaf d others k) (fun ov =>
                     AOk ([{| tk_key := keyarg o prefix k; tk_item := item; tk_others := ov |}], LFut base))
@@ -188,25 +189,31 @@ Fixpoint log_get (log : list (nat * option tree)) (id : nat) : option (option tr
 
 Inductive rb (A : Type) :=
 | RbOk (a : A)
-| RbCyclic          (* out[key] = out: the returned structure contains itself (S16) *)
 | RbStuck.          (* a future that never completes / positional mismatch (zip strict) *)
 Arguments RbOk {A} a.
-Arguments RbCyclic {A}.
 Arguments RbStuck {A}.
 Definition rbbind {A B} (r : rb A) (f : A -> rb B) : rb B :=
-  match r with RbOk a => f a | RbCyclic => RbCyclic | RbStuck => RbStuck end.
+  match r with RbOk a => f a | RbStuck => RbStuck end.
 
 Section Rebuild.
 Variable o : opts.
 Variable log : list (nat * option tree).
-Variable out_mode : bool.      (* out= given: `result = out` at EVERY level (the root out is handed down) *)
 
-(* state: the result object of this level (in out mode: the root out, shared by all levels), any_set *)
-Definition finish_rebuild (st : forest) (any_set : bool) : forest * bool :=
-  (* `if filter_empty and not any_set: return` — filter_empty=None is falsy here *)
-  (st, negb (match o_fe o with Some true => negb any_set | _ => false end)).
+(*  if filter_empty and not any_set: return
+    elif filter_empty is None and not any_set and not self.is_empty(): return      (same rule as _apply_nest, fix C12-b)
+    return result *)
+Definition finish_rebuild (self st : forest) (any_set : bool) : option forest :=
+  match o_fe o with
+  | Some true => if any_set then Some st else None
+  | None => if negb any_set && negb (fempty self) then None else Some st
+  | Some false => Some st
+  end.
 
-Fixpoint rebuild_items (items : forest) (lfs : list lf) (st : forest) (any_set : bool) : rb (forest * bool) :=
+Definition unopt (r : option forest) : forest := match r with Some f => f | None => FNil end.
+
+(* result object of a level: self (inplace), out (the level's own out, i.e. out[key] below the root — fix S16), or a new one *)
+Fixpoint rebuild_items (out : option forest) (items : forest) (lfs : list lf) (st : forest) (any_set : bool)
+  : rb (forest * bool) :=
   match items, lfs with
   | FNil, [] => RbOk (st, any_set)
   | FCons k item rest, l :: lrest =>
@@ -214,22 +221,20 @@ Fixpoint rebuild_items (items : forest) (lfs : list lf) (st : forest) (any_set :
       | LFut id =>
           match log_get log id with
           | None => RbStuck
-          | Some (Some v) => rebuild_items rest lrest (fset st k v) true
-          | Some None => rebuild_items rest lrest st any_set
+          | Some (Some v) => rebuild_items out rest lrest (fset st k v) true
+          | Some None => rebuild_items out rest lrest st any_set
           end
       | LList sub =>
           match item with
           | Leaf _ => RbStuck
           | Node g =>
-              let init := if o_inplace o then g else if out_mode then st else FNil in
-              rbbind (rebuild_items g sub init false) (fun r =>
-              let '(st', ret) := finish_rebuild (fst r) (snd r) in
-              if out_mode && negb (o_inplace o) then
-                (* the nested level wrote into the root out and returns it: out[k] = out *)
-                if ret then RbCyclic else rebuild_items rest lrest st' any_set
-              else
-                if ret then rebuild_items rest lrest (fset st k (Node st')) true
-                else rebuild_items rest lrest st any_set)
+              let out' := out_child out k in
+              let init := if o_inplace o then g else unopt out' in
+              rbbind (rebuild_items out' g sub init false) (fun r =>
+              match finish_rebuild g (fst r) (snd r) with
+              | Some st' => rebuild_items out rest lrest (fset st k (Node st')) true
+              | None => rebuild_items out rest lrest st any_set
+              end)
           end
       end
   | _, _ => RbStuck
@@ -238,7 +243,6 @@ End Rebuild.
 
 Inductive outcome :=
 | ORet (r : option forest)     (* returned tensordict (None: filtered out) *)
-| OCyclic
 | ORaise (e : aerr).
 
 Definition mt_apply (fn : userfn) (o : opts) (d : dflt) (con : bool) (self : forest) (others : list forest)
@@ -247,11 +251,9 @@ Definition mt_apply (fn : userfn) (o : opts) (d : dflt) (con : bool) (self : for
   | ARaised e => ORaise e
   | AOk (tasks, lfs) =>
       let log := run_tasks fn tasks pi in
-      let out_mode := match out with Some _ => negb (o_inplace o) | None => false end in
-      let init := if o_inplace o then self else match out with Some g => g | None => FNil end in
-      match rebuild_items o log out_mode self lfs init false with
-      | RbOk r => let '(st, ret) := finish_rebuild o (fst r) (snd r) in ORet (if ret then Some st else None)
-      | RbCyclic => OCyclic
+      let init := if o_inplace o then self else unopt out in
+      match rebuild_items o log out self lfs init false with
+      | RbOk r => ORet (finish_rebuild o self (fst r) (snd r))
       | RbStuck => ORaise ANeverDone
       end
   end.
